@@ -75,7 +75,7 @@ void AppendDomain(util::Serializer &dump, const std::string domain)
 }
 
 /// 从缓冲中提取domain，与AppendDomain()相反
-std::string FetchDomain(util::Deserializer &parser)
+std::string FetchDomain(util::Deserializer &parser, int depth = 0)
 {
     std::ostringstream oss;
     bool first = true;
@@ -95,8 +95,9 @@ std::string FetchDomain(util::Deserializer &parser)
             parser >> offset_low;
             uint16_t offset = (len & 0x3f) << 8 | offset_low;
             util::Deserializer sub_parser(parser);
-            sub_parser.set_pos(offset);
-            oss << FetchDomain(sub_parser);
+            //! 限制压缩指针的嵌套层数，并检查偏移是否在包内，防止指针成环或指向包外导致无限递归
+            if (depth < 16 && sub_parser.set_pos(offset))
+                oss << FetchDomain(sub_parser, depth + 1);
             break;
         } else {
             char str[len + 1];
